@@ -417,8 +417,11 @@ pub fn gen_world(seed: u64) -> C12World {
     let mut exec_dash = false;
     let pick_mismatch = em.rng.chance(1, 6);
     let late = !pick_mismatch && !use_tla && matches!(value, Json::Obj(_) | Json::Arr(_)) && em.rng.chance(1, 8);
-    if pick_mismatch || late {
-        let kind = if late { if matches!(value, Json::Obj(_)) { 10 } else { 11 } } else { em.rng.below(15) };
+    let mut tries = 0;
+    while (pick_mismatch || late) && expect == Expect::Ok && tries < 10 {
+        tries += 1;
+        // a kind that does not apply to this world is drawn again (the fallback takes over after a few draws)
+        let kind = if late { if matches!(value, Json::Obj(_)) { 10 } else { 11 } } else if tries >= 9 { 9 } else { em.rng.below(15) };
         match kind {
             14 if mode.input == InputKind::Exec => {
                 // `-e -`: the program text is a lone minus sign (a syntax error), NOT "read standard input"; something
@@ -476,7 +479,8 @@ pub fn gen_world(seed: u64) -> C12World {
                 expect = Expect::Fail(1, "last field fails late".into());
             }
             11 if matches!(value, Json::Arr(_)) && !use_tla => {
-                let bad = if em.rng.chance(1, 2) { "error \"late element failure\"" } else { "function(x) x" };
+                // a function fails only when the element is MANIFESTED (evaluation is fine), an error already when evaluated
+                let bad = if em.rng.chance(1, 3) { "error \"late element failure\"" } else if em.rng.chance(1, 2) { "function(x) x" } else { "{ ok: 1, f: function(x) x }" };
                 body = format!("{body} + [{bad}]");
                 expect = Expect::Fail(1, "last element fails late".into());
             }
@@ -493,12 +497,17 @@ pub fn gen_world(seed: u64) -> C12World {
                 extra_flags.push("dup=2".into());
                 expect = Expect::Fail(1, "ext var defined twice".into());
             }
-            _ => {
+            9 => {
                 extra_flags.push("--ext-str-file".into());
                 extra_flags.push("gone=lib/does_not_exist.txt".into());
                 expect = Expect::Fail(1, "ext-str-file missing".into());
             }
+            _ => {}
         }
+    }
+    if expect == Expect::Ok && mode.input == InputKind::Exec && em.rng.chance(1, 10) {
+        exec_dash = true;
+        expect = Expect::Fail(1, "-e with the program text `-`".into());
     }
     let mut argv: Vec<String> = Vec::new();
     argv.push("-J".into());
@@ -1067,6 +1076,13 @@ pub fn check_world(w: &C12World, plan: &[Rule], stdout_kind: &StdoutKind) -> (Ru
         Err((inv, msg)) => return (base, Some((inv.clone(), format!("model:{inv}"), msg))),
     };
     if plan.is_empty() && *stdout_kind == StdoutKind::File {
+        if w.expect == Expect::Ok && (w.mode.m.is_some() || w.mode.o.is_some()) {
+            // M10: a re-run over its own outputs changes nothing
+            let again = crate::cliworld::run_world_again(&w.world);
+            if again.exit != base.exit || again.stdout != base.stdout || sinks_of(w, &again) != sinks_of(w, &base) {
+                return (again, Some(("M10".into(), "model:rerun-differs".into(), "a second run of the same command in the same tree differs".into())));
+            }
+        }
         return (base, None);
     }
     let mut ww = w.clone();
@@ -1200,6 +1216,16 @@ pub fn run_one(root_seed: u64, i: u64, max_plans: usize, st: &mut Stats) -> Opti
     };
     if e.stdout.len() + e.o.as_ref().map(|o| o.len()).unwrap_or(0) > 8192 {
         bump(&mut st.probes, "output_larger_than_8KiB");
+    }
+    // re-running the same command over its own outputs (an -o file / -m files that already hold exactly what this run
+    // writes) changes nothing: same exit status, same stdout (incl. the -m path list), same files
+    if w.expect == Expect::Ok && (w.mode.m.is_some() || w.mode.o.is_some()) && i % 2 == 0 {
+        let again = crate::cliworld::run_world_again(&w.world);
+        st.spawns += 1;
+        bump(&mut st.probes, "rerun_over_own_outputs_checked");
+        if again.exit != base.exit || again.stdout != base.stdout || sinks_of(&w, &again) != sinks_of(&w, &base) {
+            return Some(violation(&w, &[], &StdoutKind::File, "M10", "model:rerun-differs", &format!("a second run of the same command in the same tree differs: exit {:?} vs {:?}, stdout {} vs {} bytes", again.exit, base.exit, again.stdout.len(), base.stdout.len()), i, &again, false));
+        }
     }
     // I6 determinism (second spawn under a different ASLR / hash seed)
     if i % 8 == 0 {
